@@ -31,7 +31,7 @@ def run(pid, tier, seed):
         "mirror property walk(end, start) follows from the symmetric postcondition (meta-argument)",
         "Walker is verified once against the navigation contracts, which both mixin families satisfy"],
         "queries.py", {"property": "C15", "nodes": 5}, {"property": "C15", "nodes": 7},
-        "all ordered tree shapes up to N nodes, every ordered pair of nodes, plus nodes of a second tree", lemmas=LEMMAS)
+        "all ordered tree shapes up to N nodes, every ordered pair of nodes, plus nodes of a second tree", lemmas=LEMMAS, quick_search=True)
 
 
 def replay(pid, path):
